@@ -22,10 +22,13 @@ ST = ["New", "Booting", "Running", "Reloading", "Stopping", "Stopped", "Error", 
 
 def regen_table(run):
     """The translator step: dump the transition table the linked go-fsm really has."""
-    rc, out = C.sh([os.path.join(C.BIN, "fsmtable"), "-o", GEN], timeout=120)
-    if rc != 0:
-        run.violation("fsmtable-failed", {"out": out[-2000:]}, "the FSM table dumper failed", True)
+    tmp = C.gen_tmp("FsmTable.v")
+    rc, out = C.sh([os.path.join(C.BIN, "fsmtable"), "-o", tmp], timeout=120)
+    if rc != 0 or not os.path.exists(tmp):
+        if run is not None:
+            run.violation("fsmtable-failed", {"out": out[-2000:]}, "the FSM table dumper failed", True)
         return False
+    C.install_gen("FsmTable.v", tmp)         # atomically, only if changed; put back after a run on a scratch tree
     return True
 
 
@@ -316,7 +319,7 @@ def replay(path):
         return 1
     if not cid:
         print("replay names a broken obligation or correspondence, not an input:", rp.get("what"))
-        C.sh([os.path.join(C.BIN, "fsmtable"), "-o", GEN])
+        regen_table(None)
         okc, clog, failed = C.coq_build()
         print("coq build:", "ok" if okc else "FAILED %s %s" % (failed, failing_lemmas(clog)))
         if not okc:
